@@ -64,25 +64,34 @@ def tlc_plans(chk, tier, start, dev=(), cfgs=None, faults=None, workers=4, emit=
     return core.run_tlc("Spawn_MC.tla", path, workers=workers, timeout=3000, xmx="6g", metadir=md)
 
 
-def model_selftest(chk):
+def _selftest_dev(chk, dev, start):
+    r = tlc_plans(chk, "quick", start, dev=(dev,), cfgs="CfgsTiny", workers=1, emit=False, tag="_" + dev)
+    if "AbsHolds" not in r.invariant_violated:
+        raise core.ToolError("model self-test: deviation %s does not violate AbsHolds in Spawn.tla:\n%s" % (dev, r.out[-1500:]))
+    return True
+
+
+def _selftest_probe(chk, probe):
+    path = os.path.join(chk.work, "Spawn_probe_%s.cfg" % probe)
+    with open(path, "w") as f:
+        f.write("CONSTANTS\n  StartFeature = TRUE\n  Dev = {}\n  Cfgs <- CfgsTiny\n  Faults <- FaultsQuick\n"
+                "INIT InitMC\nNEXT Next\nINVARIANTS %s\nCHECK_DEADLOCK FALSE\n" % probe)
+    md = os.path.join(core.WORK, "tlc-meta", "Spawn_MC-%d-%s" % (os.getpid(), probe))
+    r = core.run_tlc("Spawn_MC.tla", path, workers=1, timeout=600, metadir=md)
+    if probe not in r.invariant_violated:
+        raise core.ToolError("model self-test: probe %s unreachable (vacuous invariant)" % probe)
+    return True
+
+
+def model_selftest_jobs(chk, ex):
     """The named deviations of the pinned tree must be exhibited by TLC in the model (anti-vacuity
     of the invariants), and every probe state must be reachable."""
-    res = {}
+    futs = {}
     for dev, start in (("ChildReturnsErr", True), ("ExecveNegErrno", True), ("EnvTestInverted", False)):
-        r = tlc_plans(chk, "quick", start, dev=(dev,), cfgs="CfgsTiny", workers=1, emit=False, tag="_" + dev)
-        res[dev] = "AbsHolds" in r.invariant_violated
-        if not res[dev]:
-            raise core.ToolError("model self-test: deviation %s does not violate AbsHolds in Spawn.tla:\n%s" % (dev, r.out[-1500:]))
+        futs[dev] = ex.submit(_selftest_dev, chk, dev, start)
     for probe in ("ProbeOk", "ProbeErrParent", "ProbeErrChild", "ProbeWaited"):
-        path = os.path.join(chk.work, "Spawn_probe_%s.cfg" % probe)
-        with open(path, "w") as f:
-            f.write("CONSTANTS\n  StartFeature = TRUE\n  Dev = {}\n  Cfgs <- CfgsTiny\n  Faults <- FaultsQuick\n"
-                    "INIT InitMC\nNEXT Next\nINVARIANTS %s\nCHECK_DEADLOCK FALSE\n" % probe)
-        r = core.run_tlc("Spawn_MC.tla", path, workers=1, timeout=600)
-        res[probe] = probe in r.invariant_violated
-        if not res[probe]:
-            raise core.ToolError("model self-test: probe %s unreachable (vacuous invariant)" % probe)
-    return res
+        futs[probe] = ex.submit(_selftest_probe, chk, probe)
+    return futs
 
 
 # ------------------------------------------------------------------------------------------------
@@ -155,6 +164,17 @@ def concretise(plan, rundir, variant, idx):
          "gid": os.getgid() if cfg["gid"] == "own" else -1, "pgid": os.getgid(),
          "pg": 0 if cfg["pg"] == "own" else -1, "io": io, "pre": list(cfg["pre"])}
     f = plan["fault"]
+    planned = []
+    if cfg["cwd"] == "missing":
+        planned.append({"proc": "C", "step": "chdir", "errno": 2})
+    if cfg["prog"] == "missing":
+        planned.append({"proc": "C", "step": "execve", "errno": 2})
+    for code in cfg["pre"]:
+        if code:
+            planned.append({"proc": "C", "step": "pre_exec", "errno": code if code > 0 else 0})
+    if f["k"]:
+        planned.append({"proc": f["p"], "step": f["sys"], "errno": f["err"] if f["err"] > 0 else 0})
+    c["planned"] = planned
     inj = None
     if f["k"]:
         inj = "task=%d,nr=%s,k=%d,%s" % (1 if f["p"] == "P" else 2, f["sys"], f["k"],
@@ -244,6 +264,8 @@ def assemble(idx, c, tr, dv, dump):
             ev = {"ev": "sys", "task": e["task"], "nr": e["nr"], "ret": e["ret"], "inj": e["inj"]}
             if e["nr"] == "wait4" and e["ret"] > 0:
                 ev["reaped"] = e.get("reaped", 0)
+            if e["nr"] == "chdir":
+                ev["path"] = e.get("path", "")
             out.append(ev)
         elif k == "fork":
             out.append({"ev": "fork", "parent": e["parent"], "child": e["child"]})
@@ -323,33 +345,36 @@ def conformance(run, plan, verdict):
 # B2: TLC judges the recorded runs
 # ------------------------------------------------------------------------------------------------
 def judge(chk, runs, tag):
+    """returns ({run idx: verdict}, [TlcResult])"""
     verdicts = {}
+    results = []
     B = 1500
     for k in range(0, len(runs), B):
         part = runs[k:k + B]
         path = os.path.join(chk.work, "trace_%s_%d.ndjson" % (tag, k))
-        evs = [{"ev": "meta", "check": "C13", "seed": chk.seed, "tier": chk.tier}]
+        evs = []
         for r in part:
             evs += r["events"]
-        core.write_ndjson(path, evs[1:])
+        core.write_ndjson(path, evs)
+        md = os.path.join(core.WORK, "tlc-meta", "SpawnTrace-%d-%s-%d" % (os.getpid(), tag, k))
         res = core.run_tlc("SpawnTrace.tla", "SpawnTrace.cfg", workers=1, env={"TRACE": path}, timeout=3000,
-                           xmx="4g", xss="512m", deque=True)
+                           xmx="4g", xss="512m", deque=True, metadir=md)
         core.tlc_must_pass(res, "SpawnTrace")
         vs = res.printed("VERDICT")
         done = res.printed("JUDGED")
         if len(vs) != len(part) or len(done) != 1:
             raise core.ToolError("SpawnTrace judged %d of %d runs: %s" % (len(vs), len(part), res.out[-2000:]))
-        chk.add_tlc(res)
+        results.append(res)
         for v in vs:
             verdicts[v["run"]] = v
-    return verdicts
+    return verdicts, results
 
 
 def signature(plan, variant, clause, verdict):
     """identity of a violation: the clause, the steps that failed in that run (side/step), the build"""
     steps = sorted({"%s/%s" % ("caller" if f["proc"] == "P" else "child", f["step"]) for f in verdict.get("failed", [])})
     sig = {"clause": clause, "failed": "+".join(steps) if steps else "none", "start": VARIANTS[variant][1]}
-    if clause == "OkMeansConfigured":
+    if clause in ("OkMeansConfigured", "AttemptIsConfigured"):
         sig["mismatch"] = "+".join(sorted(verdict.get("mismatch", [])))
     return sig
 
@@ -357,44 +382,58 @@ def signature(plan, variant, clause, verdict):
 # ------------------------------------------------------------------------------------------------
 def run(tier):
     chk = core.Check("C13", tier, "model_checking")
-    rng = random.Random(chk.seed)
-    tools = build_tools()
-    sel = model_selftest(chk)
-    chk.extra["model_selftest"] = sel
+    import time
+    t0 = time.time()
     allruns = 0
     nontrivial = 0
     drift = []
     per_action = {}
     clause_runs = {}
-    with concurrent.futures.ThreadPoolExecutor(max_workers=2) as ex:
+    tools = build_tools()
+    with concurrent.futures.ThreadPoolExecutor(max_workers=6) as ex:
         futs = {v: ex.submit(tlc_plans, chk, tier, VARIANTS[v][1]) for v in VARIANTS}
+        sfuts = model_selftest_jobs(chk, ex)
         tlcres = {v: futs[v].result() for v in VARIANTS}
-    for variant, (template, start, _alt) in VARIANTS.items():
+        chk.extra["model_selftest"] = {k: f.result() for k, f in sfuts.items()}
+    core.log("Spawn_MC x2 + model self-test %.1fs" % (time.time() - t0))
+    def variant_work(variant, seed):
+        template = VARIANTS[variant][0]
         res = tlcres[variant]
         core.tlc_must_pass(res, "Spawn_MC (%s)" % variant)
-        chk.add_tlc(res)
         plans = {}
         for p in res.printed("PLAN"):
             plans.setdefault(plan_key(p), p)
         plans = [plans[k] for k in sorted(plans)]
         if not plans:
             raise core.ToolError("Spawn_MC generated no plan")
-        bad = [p for p in plans if p["viol"]]
-        if bad:
+        if any(p["viol"] for p in plans):
             raise core.ToolError("model inconsistent: plan with violated clauses although AbsHolds passed")
-        chosen, n_nofault, n_groups = select_plans(plans, tier, rng)
-        chk.extra["plans_%s" % variant] = {"generated_by_tlc": len(plans), "executed": len(chosen),
-                                            "configurations_without_fault": n_nofault, "fault_x_outcome_classes": n_groups,
-                                            "model_states": res.distinct}
+        chosen, n_nofault, n_groups = select_plans(plans, tier, random.Random(seed))
+        info = {"generated_by_tlc": len(plans), "executed": len(chosen), "configurations_without_fault": n_nofault,
+                "fault_x_outcome_classes": n_groups, "model_states": res.distinct}
         bindir = core.cargo_build(template=template, bins=["spawnd"])
         base = os.path.join(chk.work, "runs-" + variant)
         if os.path.isdir(base):
             shutil.rmtree(base)
         jobs = [{"idx": i + 1, "plan": p, "variant": variant, "rundir": os.path.join(base, "r%05d" % (i + 1)),
                  "bindir": bindir, "tools": tools} for i, p in enumerate(chosen)]
-        with concurrent.futures.ThreadPoolExecutor(max_workers=8) as ex:
-            runs = list(ex.map(execute, jobs))
-        verdicts = judge(chk, runs, variant)
+        t1 = time.time()
+        with concurrent.futures.ThreadPoolExecutor(max_workers=6) as ex2:
+            runs = list(ex2.map(execute, jobs))
+        t2 = time.time()
+        verdicts, jres = judge(chk, runs, variant)
+        core.log("%s: %d real runs %.1fs, SpawnTrace judge %.1fs" % (variant, len(runs), t2 - t1, time.time() - t2))
+        return info, jobs, runs, verdicts, jres
+
+    with concurrent.futures.ThreadPoolExecutor(max_workers=2) as ex:
+        vf = {v: ex.submit(variant_work, v, chk.seed) for v in VARIANTS}
+        vres = {v: vf[v].result() for v in VARIANTS}
+    for variant in VARIANTS:
+        info, jobs, runs, verdicts, jres = vres[variant]
+        chk.add_tlc(tlcres[variant])
+        for r in jres:
+            chk.add_tlc(r)
+        chk.extra["plans_%s" % variant] = info
         for r, job in zip(runs, jobs):
             v = verdicts[r["idx"]]
             plan = job["plan"]
@@ -406,10 +445,6 @@ def run(tier):
                 key = e["ev"] + (":" + e["nr"] if e["ev"] == "sys" else "") + (":" + e["kind"] if e["ev"] == "mark" else "")
                 per_action[key] = per_action.get(key, 0) + 1
             clauses = list(v["viol"]) + ["Anomaly:" + a for a in v["anomalies"]]
-            if plan["fault"]["k"] and not any(e.get("inj") for e in r["tracer"] if e["ev"] in ("sys", "exec")):
-                # the planned call never happened in the real code: nothing was injected -> not a
-                # statement about the property; recorded as drift below
-                pass
             d = conformance(r, plan, v)
             if d:
                 drift.append({"variant": variant, "cfg": plan["cfg"], "fault": plan["fault"], "first": d[0]})
@@ -462,7 +497,7 @@ def replay(path):
     job = {"idx": 1, "plan": rp["plan"], "variant": variant, "rundir": os.path.join(chk.work, "replay", "r1"),
            "bindir": bindir, "tools": tools}
     r = execute(job)
-    v = judge(chk, [r], "replay")[1]
+    v = judge(chk, [r], "replay")[0][1]
     for e in r["events"]:
         print(json.dumps(e))
     print("verdict:", json.dumps(v))
